@@ -9,6 +9,7 @@ package main
 import (
 	"context"
 	"encoding/json"
+	"errors"
 	"expvar"
 	"io"
 	"strconv"
@@ -53,14 +54,21 @@ func (s *scripted) Read(p []byte) (int, error) {
 	}
 	k := s.chunks[s.i]
 	s.i++
+	var rerr error
+	if k < 0 { // the model says: these bytes arrive together with an error
+		k = -k
+		rerr = errTransient
+	}
 	if k > len(p) {
 		s.bad = "model chunk " + strconv.Itoa(k) + " larger than the room the real reader offers " + strconv.Itoa(len(p))
 		k = len(p)
 	}
 	copy(p, s.data[:k])
 	s.data = s.data[k:]
-	return k, nil
+	return k, rerr
 }
+
+var errTransient = errors.New("transient read error delivered with data")
 
 const src = "verif-c15"
 
@@ -92,6 +100,9 @@ func main() {
 		why := ""
 		for _, k := range c.Chunks {
 			got, _ := lr.ReadAndSend(ctx)
+			if k < 0 {
+				k = -k
+			}
 			if got != k && why == "" {
 				why = "ReadAndSend returned count " + strconv.Itoa(got) + ", scheduled " + strconv.Itoa(k)
 			}
